@@ -277,6 +277,45 @@ func c17(r *core.Report) {
 	r.Rule("C17-FIELDS", "Marshal/Parse/Equal/IsZero of a key type touch the same field set: all fields", 7)
 	ruleKeyFields(r, "C17-FIELDS", false)
 
+	// ---- C17-EQUAL-TWO-SIDED: "equal exactly when the encodings are equal" makes EqualPublicKeys an equivalence;
+	// in particular a key equals itself. Every branch of the function must therefore compare something of a with
+	// something of b: a condition that looks at one operand only (an unset test, a length test) makes some key
+	// unequal to itself (or to its own re-parsed encoding).
+	r.Rule("C17-EQUAL-TWO-SIDED", "every branch condition of EqualPublicKeys depends on both operands", 1)
+	if eq := needFn(r, "f/x509", "EqualPublicKeys"); eq != nil && len(eq.Params) == 2 {
+		r.Analysed(eq)
+		nIf := 0
+		bad := ""
+		for _, blk := range eq.Blocks {
+			iff, ok := blk.Instrs[len(blk.Instrs)-1].(*ssa.If)
+			if !ok {
+				continue
+			}
+			nIf++
+			conds := []ssa.Value{iff.Cond}
+			// short-circuit chains are phis of the operand conditions: look at each operand
+			if ph, isPhi := iff.Cond.(*ssa.Phi); isPhi {
+				conds = nil
+				for _, e := range ph.Edges {
+					if _, isK := core.ConstBool(e); !isK {
+						conds = append(conds, e)
+					}
+				}
+			}
+			for _, cnd := range conds {
+				fromA := core.DerivesFrom(cnd, func(x ssa.Value) bool { return x == ssa.Value(eq.Params[0]) })
+				fromB := core.DerivesFrom(cnd, func(x ssa.Value) bool { return x == ssa.Value(eq.Params[1]) })
+				if fromA != fromB {
+					bad = p.Pos(cnd.Pos())
+				}
+			}
+		}
+		// conditions that feed a phi without being a branch themselves (a || b): the single-operand tests are
+		// the If conditions of the predecessor blocks and are visited above
+		r.Check(bad == "" && nIf > 0, "C17-EQUAL-TWO-SIDED", core.FnName(eq), p.Pos(eq.Pos()), "each condition compares the two keys with each other",
+			"a branch of EqualPublicKeys (at "+bad+") looks at one key only: some key is then not equal to itself, nor to the key parsed back from its own encoding, although both encode to the same bytes")
+	}
+
 	// ---- C17-FP-CANON
 	r.Rule("C17-FP-CANON", "default fingerprinters hash the canonical re-marshalled key only, with the same hash everywhere", 7)
 	marshalPK := needFn(r, "f/x509", "MarshalPublicKey")
